@@ -26,6 +26,8 @@ ANCHOR_FILES = ["quantem/core/datastructures/dataset.py"]
 RULE = (
     "seeded matrix over op (bin, resample laws/linearity/identity/up-down, pad-crop, and histories of 3-6 in-place/copying bin/pad/crop/resample calls on ONE object, "
     "every step judged against the state read through the public attributes just before it) x ndim 1..4 x dtype kind (int/float/complex); "
+    "plus a fixed menu of big arrays (> 2**22 and one > 2**24 elements; int16/uint8/float32/complex64; axis subsets of stacks and all axes) judged by mean, "
+    "centre, extent, identity, linearity, exact block sums and 'frame k of the big result == that frame processed as a small stack'; "
     "shapes odd/even/length-1, axis subsets spelled None / int / tuple in any order / negative indices, factors incl. non-dividing and "
     "> length/2, reducers, out shapes x0.3..x3 incl. odd<->even, both copying and in-place variants. non-trivial = non-constant data and "
     "(some bin factor > 1 | some output length != input length | some pad width > 0); distinct = (op, ndim, parity pattern of the shape, "
@@ -46,7 +48,7 @@ MIN_EVALUATIONS = {"quick": 5000, "thorough": 100000}
 REQUIRED_COUNTERS = [
     "eval:bin_block_values", "eval:bin_origin", "eval:bin_sampling", "eval:bin_count_conservation", "eval:bin_block_centre",
     "eval:rs_mean", "eval:rs_centre", "eval:rs_extent", "eval:rs_linear", "eval:rs_identity", "eval:rs_updown", "eval:rs_spectrum_band",
-    "eval:padcrop_roundtrip", "eval:pad_placement", "eval:crop_slice", "eval:copying_call_changed_source",
+    "eval:padcrop_roundtrip", "eval:pad_placement", "eval:crop_slice", "eval:copying_call_changed_source", "eval:big_frame_consistency",
 ]
 EXHAUSTIVE = {"quick": False, "thorough": False}
 
@@ -58,7 +60,8 @@ TOL_RS = {"64": 1e-10, "32": 2e-4}  # float32 resample content: measured 6.4e-7
 
 def plan(tier, seed):
     reps = 30 if tier == "quick" else 2400
-    specs = []
+    # a handful of large arrays (> 2**22 and ~2**24 elements): size-dependent code paths; must-run, one per worker at the start
+    specs = [{"kind": "big", "variant": v, "rep": r, "_must_run": True} for r in range(1 if tier == "quick" else 5) for v in range(len(BIG_MENU))]
     for r in range(reps):
         for (kind, w), ndim, dk in itertools.product(KINDS, (1, 2, 3, 4), DKINDS):
             for j in range(w):
@@ -721,6 +724,214 @@ def _case_history(spec, idx, ctx):
     ctx.observe(start_shape=shape0, dtype=dtype, ops=trail, final_shape=tuple(ds.shape))
 
 
+# ------------------------------------------------------------------------------------------------
+# big arrays: > 2**22 (one ~2**24) elements, judged by the cheap laws only (no O(size x length) explicit DFT)
+
+# (op, ndim, axes operated on, dtype, in place, size class)
+BIG_MENU = [
+    ("rs_laws", 3, (1, 2), "int16", False, 22),
+    ("rs_laws", 4, (2, 3), "uint8", True, 22),
+    ("rs_laws", 3, (1, 2), "uint8", False, 24),
+    ("rs_laws", 2, None, "int16", False, 22),
+    ("rs_laws", 3, (0,), "float32", True, 22),
+    ("rs_laws", 4, (1, 3), "complex64", False, 22),
+    ("rs_linear", 3, (1, 2), "int16", False, 22),
+    ("rs_identity", 3, (1, 2), "int16", True, 22),
+    ("bin", 3, (1, 2), "int16", False, 22),
+    ("bin", 4, (0, 3), "uint8", True, 22),
+    ("padcrop", 3, (0, 2), "uint8", False, 22),
+]
+
+
+def _big_shape(rng, ndim, axes, size_class):
+    """frames of 200..330 pixels a side, as many of them as needed to exceed 2**size_class elements"""
+    target = (1 << size_class) + 1
+    if ndim == 2:
+        h = int(rng.integers(2049, 2100))
+        return (h, target // h + 1 + int(rng.integers(0, 40)))
+    h, w = int(rng.integers(200, 331)), int(rng.integers(200, 331))
+    nb = -(-target // (h * w)) + int(rng.integers(0, 4))
+    if ndim == 3:
+        dims = {"b": [nb]}
+    else:
+        b1 = int(rng.integers(2, 8))
+        dims = {"b": [b1, -(-nb // b1)]}
+    # big frame axes go where the menu operates (or does not operate), the batch axes take the remaining positions
+    frame_axes = list(axes) if (axes is not None and len(axes) == 2) else [a for a in range(ndim)][-2:]
+    if axes is not None and len(axes) == 1:
+        frame_axes = [a for a in range(ndim) if a not in axes][-2:]
+    shape = [0] * ndim
+    for ax, n in zip(frame_axes, (h, w)):
+        shape[ax] = n
+    rest = [a for a in range(ndim) if a not in frame_axes]
+    for ax, n in zip(rest, dims["b"]):
+        shape[ax] = n
+    return tuple(shape)
+
+
+def _big_data(rng, shape, dtype):
+    dt = np.dtype(dtype)
+    if dt.kind in "iu":
+        info = np.iinfo(dt)
+        return rng.integers(max(info.min, -2000), min(info.max, 2000) + 1, size=shape, dtype=np.int64).astype(dt)
+    if dt.kind == "f":
+        return rng.standard_normal(size=shape, dtype=np.float32).astype(dt) * dt.type(50) + dt.type(10)
+    return (rng.standard_normal(size=shape, dtype=np.float32) + 1j * rng.standard_normal(size=shape, dtype=np.float32)).astype(dt) * dt.type(20)
+
+
+def _block_sum_fast(a, a2f):
+    """vectorised strided block sums in int64 / float64 / complex128 (independent of the library's reshape-and-sum)"""
+    out = a.astype(np.int64 if a.dtype.kind in "iu" else (np.complex128 if a.dtype.kind == "c" else np.float64))
+    for ax, f in a2f.items():
+        nb = out.shape[ax] // f
+        acc = _take(out, slice(0, nb * f, f), ax).copy()
+        for k in range(1, f):
+            acc += _take(out, slice(k, nb * f, f), ax)
+        out = acc
+    return out
+
+
+def _case_big(spec, idx, ctx):
+    rng = ctx.rng(idx)
+    op, ndim, axes_t, dtype, inplace, size_class = BIG_MENU[spec["variant"]]
+    shape = _big_shape(rng, ndim, axes_t, size_class)
+    axes = list(range(ndim)) if axes_t is None else list(axes_t)
+    prec = G.precision(dtype)
+    dkind = {"i": "int", "u": "int", "f": "float", "c": "complex"}[np.dtype(dtype).kind]
+    fields = {"op": "big_" + op, "dkind": dkind, "prec": prec, "ndim": ndim, "axes_form": "all" if axes_t is None else "subset", "inplace": inplace, "size_class": "2^%d" % size_class}
+    Dataset = ctx.state["cls"][0]
+    cal = G.rand_calibration(rng, ndim, form="float_array")
+    a = _big_data(rng, shape, dtype)
+    size = int(np.prod(shape))
+    if size <= (1 << size_class):
+        from vf.core import HarnessError
+
+        raise HarnessError("big case below its size class: %s" % (shape,))
+    kw_axes = {} if axes_t is None else {"axes": axes_t}
+    rest = [i for i in range(ndim) if i not in axes]
+    desc = {}
+    what = lambda: "big %s shape=%s (%d elements) dtype=%s axes=%r %r inplace=%s" % (op, shape, size, dtype, axes_t, desc, inplace)
+
+    def make(arr):
+        return Dataset.from_array(arr, name="c06big", origin=cal[0], sampling=cal[1], units=cal[2])
+
+    def frames(n_other):
+        """a few index tuples along the non-operated axes (first / middle / last)"""
+        if not rest:
+            return []
+        picks = []
+        for frac in (0.0, 0.5, 1.0):
+            picks.append(tuple(int(round(frac * (shape[i] - 1))) for i in rest))
+        return list(dict.fromkeys(picks))
+
+    def sub_stack(arr, pick):
+        """the frame at `pick` as a small stack (length-1 batch axes), same dimensionality"""
+        sel = [slice(None)] * ndim
+        for i, p in zip(rest, pick):
+            sel[i] = slice(p, p + 1)
+        return tuple(sel)
+
+    def run(ds, call):
+        if inplace:
+            r = call(ds, True)
+            ctx.check(r is None, "inplace_returns_value", lambda: "%s returned %r" % (what(), type(r).__name__), **fields)
+            return ds
+        return call(ds, False)
+
+    if op.startswith("rs_"):
+        sub = op[3:]
+        if sub == "identity":
+            lens = [shape[ax] for ax in axes]
+        else:
+            lens = [max(1, int(round(shape[ax] * float(rng.uniform(0.55, 1.3))))) for ax in axes]
+            if all(m == shape[ax] for m, ax in zip(lens, axes)):
+                lens[0] -= 1
+        desc["out_shape"] = tuple(lens)
+        a2m = dict(zip(axes, lens))
+        exp_shape = tuple(a2m.get(i, shape[i]) for i in range(ndim))
+        call = lambda d, ip: d.fourier_resample(out_shape=tuple(lens), modify_in_place=ip, **kw_axes)
+        tol, tolc = TOL[prec], TOL_RS[prec]
+        ds = make(a.copy() if inplace else a)
+        o0, s0 = _cal(ds)
+        res = run(ds, call)
+        if not ctx.check(tuple(res.shape) == exp_shape, "rs_shape", lambda: "%s: result shape %s" % (what(), tuple(res.shape)), **fields):
+            return
+        out = np.asarray(res.array)
+        sc = _scale(a)
+        cdt = np.complex128 if a.dtype.kind == "c" else np.float64
+        m0 = np.mean(a, axis=tuple(axes), dtype=cdt)
+        m1 = np.mean(out, axis=tuple(axes), dtype=cdt)
+        ctx.close(float(np.max(np.abs(m1 - m0))) / sc, tol, _m("rs_mean", prec), lambda: "%s: mean over the resampled axes changed (worst frame: %r -> %r)" % (what(), np.ravel(m0)[int(np.argmax(np.abs(np.ravel(m1 - m0))))], np.ravel(m1)[int(np.argmax(np.abs(np.ravel(m1 - m0))))]), **fields)
+        _rs_calibration_laws(ctx, o0, s0, shape, res, axes, fields, what)
+        if sub == "identity":
+            ctx.close(float(np.max(np.abs(out.astype(cdt) - a.astype(cdt)))) / sc, tolc, _m("rs_identity", prec), lambda: "%s: resampling to the same shape changed the data" % what(), **fields)
+        # frame k of the big stack == the same frame processed as a small stack
+        worst = 0.0
+        for pick in frames(len(rest)):
+            sel = sub_stack(a, pick)
+            small = make(a[sel].copy()).fourier_resample(out_shape=tuple(lens), **kw_axes)
+            worst = max(worst, float(np.max(np.abs(out[sel].astype(cdt) - np.asarray(small.array).astype(cdt)))))
+            ctx.count("big_frames_compared")
+        if rest:
+            ctx.close(worst / sc, tolc, _m("big_frame_consistency", prec), lambda: "%s: a frame of the big result differs from the same frame resampled as a small stack" % what(), **fields)
+        if sub == "linear":
+            b = _big_data(rng, shape, dtype)
+            ca, cb = 2, -1
+            z = (ca * a.astype(np.int32) + cb * b.astype(np.int32)).astype(dtype) if a.dtype.kind in "iu" else (ca * a + cb * b).astype(dtype)
+            rb = np.asarray(run(make(b), call).array)
+            rz = np.asarray(run(make(z), call).array)
+            lin = float(np.max(np.abs(rz.astype(cdt) - (ca * out.astype(cdt) + cb * rb.astype(cdt)))))
+            ctx.close(lin / (abs(ca) * sc + abs(cb) * _scale(b)), tolc, _m("rs_linear", prec), lambda: "%s: R(2X-Y) != 2R(X)-R(Y)" % what(), **fields)
+    elif op == "bin":
+        factors = [int(rng.integers(2, 8)) for _ in axes]
+        reducer = "sum" if rng.random() < 0.6 else "mean"
+        desc.update(factors=tuple(factors), reducer=reducer)
+        fields["reducer"] = reducer
+        a2f = dict(zip(axes, factors))
+        call = lambda d, ip: d.bin(tuple(factors), modify_in_place=ip, reducer=reducer, **kw_axes)
+        ds = make(a.copy() if inplace else a)
+        o0, s0 = _cal(ds)
+        res = run(ds, call)
+        exp_shape = tuple(shape[i] // a2f[i] if i in a2f else shape[i] for i in range(ndim))
+        if not ctx.check(tuple(res.shape) == exp_shape, "bin_shape", lambda: "%s: result shape %s, expected %s" % (what(), tuple(res.shape), exp_shape), **fields):
+            return
+        o1, s1 = _cal(res)
+        cscale = float(np.max(np.abs(o0)) + np.max(np.abs(s0) * np.array(shape)))
+        exp_s = np.array([s0[i] * a2f.get(i, 1) for i in range(ndim)])
+        exp_o = np.array([o0[i] + s0[i] * (a2f.get(i, 1) - 1) / 2.0 for i in range(ndim)])
+        ctx.close(float(np.max(np.abs(s1 - exp_s))) / cscale, 1e-12, "bin_sampling", lambda: "%s: sampling %r, expected %r" % (what(), s1.tolist(), exp_s.tolist()), **fields)
+        ctx.close(float(np.max(np.abs(o1 - exp_o))) / cscale, 1e-12, "bin_origin", lambda: "%s: origin %r, expected %r" % (what(), o1.tolist(), exp_o.tolist()), **fields)
+        ref = _block_sum_fast(a, a2f)
+        vol = int(np.prod(factors))
+        got = np.asarray(res.array)
+        if a.dtype.kind in "iu" and reducer == "sum":
+            same = bool(np.array_equal(got.astype(np.int64), ref)) and got.dtype.kind in "iu"
+            ctx.close(0.0 if same else 1.0, 0.0, "bin_block_values", lambda: "%s: integer block sums differ from the exact sums" % what(), **fields)
+            ctx.close(0.0 if int(got.sum(dtype=np.int64)) == int(ref.sum()) else 1.0, 0.0, "bin_count_conservation", lambda: "%s: sum(binned) != sum(covered region)" % what(), **fields)
+        else:
+            exp = ref / vol if reducer == "mean" else ref
+            sc = _scale(a) * (vol if reducer == "sum" else 1)
+            ctx.close(float(np.max(np.abs(got - exp))) / sc, TOL[prec], _m("bin_block_values", prec), lambda: "%s: block %s differs from the block oracle" % (what(), reducer), **fields)
+    else:  # padcrop
+        out_shape = list(shape)
+        for ax in axes:
+            out_shape[ax] = shape[ax] + int(rng.integers(1, 8))
+        desc["output_shape"] = tuple(out_shape)
+        ds = make(a.copy() if inplace else a)
+        padded = run(ds, lambda d, ip: d.pad(output_shape=tuple(out_shape), modify_in_place=ip))
+        before = [(m - n) // 2 for m, n in zip(out_shape, shape)]
+        if not ctx.check(tuple(padded.shape) == tuple(out_shape), "pad_shape", lambda: "%s: padded shape %s" % (what(), tuple(padded.shape)), **fields):
+            return
+        inner = np.asarray(padded.array)[tuple(slice(b, b + n) for b, n in zip(before, shape))]
+        ctx.check(inner.dtype == a.dtype and np.array_equal(inner, a), "pad_placement", lambda: "%s: original block not found at offset %s" % (what(), before), **fields)
+        cw = tuple((b, b + n) for b, n in zip(before, shape))
+        back = padded.crop(cw)
+        ba = np.asarray(back.array)
+        ctx.check(ba.shape == a.shape and ba.dtype == a.dtype and np.array_equal(ba, a), "padcrop_roundtrip", lambda: "%s: crop %r returned shape %s" % (what(), cw, ba.shape), **fields)
+    ctx.nontrivial(("big", op, ndim, dtype, fields["axes_form"], size_class), True)
+    ctx.observe(op=op, shape=shape, elements=size, dtype=dtype, axes=repr(axes_t), inplace=inplace, **{k: repr(v) for k, v in desc.items()})
+
+
 def run_case(spec, idx, ctx):
     import warnings
 
@@ -734,6 +945,8 @@ def run_case(spec, idx, ctx):
                 _case_padcrop(spec, idx, ctx)
             elif k == "history":
                 _case_history(spec, idx, ctx)
+            elif k == "big":
+                _case_big(spec, idx, ctx)
             else:
                 _case_rs(spec, idx, ctx)
 
